@@ -17,6 +17,29 @@ LAYOUTS = ["inside", "outside", "ownmod", "sibling", "inside-root", "parent", "o
 HOST = tuple(sh(["go", "env", "GOOS", "GOARCH"], env=goenv())[1].split())       # the platform mage builds and runs magefiles for
 _FOS, _FARCH = G.FOREIGN.get(HOST[0], "plan9"), G.FOREIGN.get(HOST[1], "riscv64")
 ENVS = [{"GOOS": _FOS}, {"GOARCH": _FARCH}, {"GOOS": _FOS, "GOARCH": _FARCH}, {"GOOS": "notanos", "GOARCH": "bogus"}, {}]
+# the go tool's environment: build tags through GOFLAGS (what is compiled is what must be exposed)
+GOFLAGS_ENVS = [("-mod=mod -tags=t", ["t"]), ("-mod=mod -tags=t,u", ["t", "u"]), ("-mod=mod", []), ("-tags=u -mod=mod", ["u"])]
+_GOCACHE, _GOPATH = sh(["go", "env", "GOCACHE", "GOPATH"], env=goenv())[1].split()[:2]
+# HOME unset (value None = the variable is removed); the go tool then needs GOCACHE / GOPATH spelled out
+NO_HOME = {"HOME": None, "GOCACHE": _GOCACHE, "GOPATH": _GOPATH}
+
+
+def mrun(mage, cwd, args, env=None, timeout=180):
+    """projlib.Mage.run with an environment in which a value None REMOVES the variable"""
+    import subprocess
+    env = env or {}
+    e = mage.env({k: v for k, v in env.items() if v is not None})
+    for k, v in env.items():
+        if v is None:
+            e.pop(k, None)
+    try:
+        p = subprocess.run([mage.bin] + list(args), cwd=cwd, env=e, input=b"", timeout=timeout, stdout=subprocess.PIPE, stderr=subprocess.PIPE)
+        rc, out, err = p.returncode, p.stdout, p.stderr
+    except subprocess.TimeoutExpired as ex:
+        rc, out, err = 124, ex.stdout or b"", (ex.stderr or b"") + b"\n[timeout]"
+    return {"rc": rc, "out": out.decode("utf-8", "replace"), "err": err.decode("utf-8", "replace")}
+
+
 # the first run of a project (`mage -l`) parses and compiles; the later ones reuse that binary
 FAST = {"MAGEFILE_HASHFAST": "1"}
 
@@ -113,6 +136,17 @@ def gen_projects(rng, quick):
         if i % 6 == 1:
             mfs = [f["name"] for f in proj["files"]]
             proj["mf_shapes"] = {rng.choice(mfs): G.FS_SHAPES[(i // 6) % 6]}
+        # every fourth project: GOFLAGS with build tags in the environment, and targets of a TAGGED package
+        # in files constrained on those tags
+        if i % 4 == 3:
+            tg = sorted({s["pkg"] for s in specs if G.oracle_tag(s) is not None})
+            if tg:
+                flags, active = GOFLAGS_ENVS[(i // 4) % len(GOFLAGS_ENVS)]
+                G.add_tag_files(rng, proj["packages"][rng.choice(tg)], active, HOST[0])
+                proj["env"] = dict(proj.get("env") or {}, GOFLAGS=flags)
+        # some projects: HOME is not set
+        if i % 7 == 5:
+            proj["env"] = dict(proj.get("env") or {}, **NO_HOME)
         # every fourth project: a TAGGED package without any target (contributes nothing; since fix
         # 904a16e the generated main imports it as `_`); everything else is listed and runs
         if i % 4 == 1:
@@ -293,14 +327,15 @@ def odd_projects(rng, i0):
 
 
 # ------------------------------------------------------------------ running one project
-def golist(mage, cwd, paths, gofiles=None):
+def golist(mage, cwd, paths, gofiles=None, goflags=None):
     """{path: resolved?} as the go tool answers in cwd - with the HOST platform (mage.env() carries no
-    GOOS/GOARCH; mage itself forces the host platform on every go command, internal.EnvWithCurrentGOOS).
+    GOOS/GOARCH; mage itself forces the host platform on every go command, internal.EnvWithCurrentGOOS)
+    and, where the project is run with its own GOFLAGS (build tags), under those GOFLAGS.
     gofiles (a dict) receives {path: .GoFiles}."""
     if not paths:
         return {}
     rc, out, err = sh(["go", "list", "-e", "-f", "{{.ImportPath}}|{{.Dir}}|{{if .Error}}E{{end}}|{{join .GoFiles \",\"}}"] + paths,
-                      cwd=cwd, env=mage.env(), timeout=300)
+                      cwd=cwd, env=mage.env({"GOFLAGS": goflags} if goflags else None), timeout=300)
     res = {p: False for p in paths}
     for l in out.splitlines():
         parts = l.split("|")
@@ -345,7 +380,7 @@ def run_project(ctx, mage, proj, outside):
     fast = dict(FAST, **penv)
     obs["env"] = penv
     tmo = 1200 if proj.get("extreme") else 180
-    r = mage.run(cwd, pre + ["-l"], env=penv, timeout=tmo)
+    r = mrun(mage, cwd, pre + ["-l"], env=penv, timeout=tmo)
     obs["list_rc"] = r["rc"]
     if r["rc"] != 0:
         obs["error"] = projlib.stderr_class(r["err"])
@@ -357,14 +392,14 @@ def run_project(ctx, mage, proj, outside):
         obs["default_mark"] = lst["default"]
         obs["warnings"] = len(re.findall(r"warning:", r["err"]))
         if names:
-            r2 = mage.run(cwd, pre + names, env=fast, timeout=tmo)
+            r2 = mrun(mage, cwd, pre + names, env=fast, timeout=tmo)
             obs["run_rc"] = r2["rc"]
             obs["calls"] = [c[0] for c in projlib.calls(r2["out"])]
             if r2["rc"] != 0:
                 obs["run_err"] = r2["err"][-600:]
         else:
             obs["run_rc"], obs["calls"] = 0, []
-        r3 = mage.run(cwd, pre, env=fast)
+        r3 = mrun(mage, cwd, pre, env=fast)
         obs["noarg_rc"] = r3["rc"]
         obs["noarg_calls"] = [c[0] for c in projlib.calls(r3["out"])]
         obs["noarg_lists"] = "Targets:" in r3["out"]
@@ -378,16 +413,16 @@ def run_project(ctx, mage, proj, outside):
         imported = [n for n in names if ":" in n]
         hn = ([imported[len(imported) // 2]] if imported else []) + [n for n in names if ":" not in n][-1:]
         for n in (hn or names[:1]):
-            rh = mage.run(cwd, pre + ["-h", n], env=fast)
+            rh = mrun(mage, cwd, pre + ["-h", n], env=fast)
             obs["help"].append({"name": n, "rc": rh["rc"], "usage": ("mage " + n.lower()) in rh["out"], "err": rh["err"][-200:]})
         obs["alias_probes"] = []
         for a in probes[:2]:
-            r4 = mage.run(cwd, pre + [a], env=fast)
+            r4 = mrun(mage, cwd, pre + [a], env=fast)
             obs["alias_probes"].append({"word": a, "rc": r4["rc"], "calls": [c[0] for c in projlib.calls(r4["out"])], "class": projlib.stderr_class(r4["err"])})
     paths = sorted({G.import_path(proj, pk) for pk in proj["packages"]})
     obs["gofiles"] = {}
-    obs["golist_mf"] = golist(mage, mf, paths, obs["gofiles"])
-    obs["golist_start"] = obs["golist_mf"] if cwd == mf else golist(mage, cwd, paths)
+    obs["golist_mf"] = golist(mage, mf, paths, obs["gofiles"], penv.get("GOFLAGS"))
+    obs["golist_start"] = obs["golist_mf"] if cwd == mf else golist(mage, cwd, paths, None, penv.get("GOFLAGS"))
     obs["magefiles"] = [os.path.join(mf, f["name"]) for f in sorted(proj["files"], key=lambda f: f["name"])]
     return obs
 
@@ -498,6 +533,11 @@ def gen_histories(rng, quick):
             for j in range(3):
                 base["packages"][j] = G.gen_package(rng, j, shape=rng.choice(["funcs", "both"]), nfuncs=rng.choice([2, 3]))
             base["packages"][0]["nested"] = None
+            if k % 2 == 1:       # this history runs with build tags in GOFLAGS; a tagged package has files constrained on them
+                flags, active = GOFLAGS_ENVS[(k // 2) % 2]
+                tg = sorted({s["pkg"] for s in specs if G.oracle_tag(s) is not None})
+                G.add_tag_files(rng, base["packages"][rng.choice(tg)], active, HOST[0])
+                base["env"] = {"GOFLAGS": flags}
             try:
                 G.rename_until_clash_free(rng, base)
                 break
@@ -522,6 +562,13 @@ def gen_histories(rng, quick):
                     steps.append({"state": len(states) - 1, "mode": "default", "first": rng.choice(["list", "help"]), "edit": None})
                 else:
                     steps.append({"state": len(states) - 1, "mode": "default", "first": rng.choice(["list", "list", "help", "run"]), "edit": what})
+                # the go build cache: in the even histories the step after the third edit runs with GOCACHE naming a
+                # directory that does not exist yet, the step after the fourth with that directory moved elsewhere
+                if k % 2 == 0 and e == 2:
+                    steps[-1]["gocache"] = "fresh"
+                    steps[-1]["first"] = "list"
+                if k % 2 == 0 and e == 3:
+                    steps[-1]["gocache"] = "moved"
                 break
         out.append({"history": {"states": states, "steps": steps}})
     return out
@@ -536,6 +583,7 @@ def run_history(ctx, mage, job, outside):
     disk = dict(G.render_project(states[0], REPO, projlib.PROBE_GO))
     cwd, pre, mf = G.start(states[0], d, outside)
     on_disk, built, prev_names, res = 0, None, [], []
+    gc, ngc = None, 0
     paths = sorted({G.import_path(states[0], pk) for pk in states[0]["packages"]})
     for step in H["steps"]:
         st = states[step["state"]]
@@ -546,11 +594,24 @@ def run_history(ctx, mage, job, outside):
                     with open(os.path.join(d, rel), "w") as f:
                         f.write(text)
             disk, on_disk = dict(files), step["state"]
-        env = dict(FAST) if step["mode"] == "hash" else {}
+        env = dict(states[0].get("env") or {})
+        if step["mode"] == "hash":
+            env.update(FAST)
+        if step.get("gocache") == "fresh" or (step.get("gocache") == "moved" and gc is None):
+            ngc += 1
+            gc = os.path.join(ctx.tmp, "gocache-%s-%d" % (states[0]["name"], ngc))       # does not exist yet
+            env["GOCACHE"] = gc
+        elif step.get("gocache") == "moved":
+            ngc += 1
+            new = os.path.join(ctx.tmp, "gocache-%s-%d-moved" % (states[0]["name"], ngc))
+            if os.path.isdir(gc):
+                os.rename(gc, new)
+            gc = new
+            env["GOCACHE"] = gc
         inv = []
         def run(args):
-            r = mage.run(cwd, pre + args, env=env)
-            inv.append({"args": args, "rc": r["rc"]})
+            r = mrun(mage, cwd, pre + args, env=env, timeout=900)
+            inv.append({"args": args, "rc": r["rc"], "GOCACHE": step.get("gocache") or "default"})
             return r
         if step["first"] == "help" and prev_names:
             run(["-h", prev_names[0]])
@@ -558,7 +619,7 @@ def run_history(ctx, mage, job, outside):
             run(prev_names[:2])
         compiled = step["mode"] == "default" or built is None
         r = run(["-l"])
-        obs = {"mf": mf, "args": pre, "mode": step["mode"], "edit": step["edit"], "golist_mf": None, "gofiles": {},
+        obs = {"mf": mf, "args": pre, "mode": step["mode"], "edit": step["edit"], "gocache": step.get("gocache") or "default", "env": states[0].get("env") or {}, "golist_mf": None, "gofiles": {},
                "magefiles": [os.path.join(mf, f["name"]) for f in sorted(st["files"], key=lambda f: f["name"])]}
         if compiled:
             built = on_disk
@@ -581,7 +642,7 @@ def run_history(ctx, mage, job, outside):
                 obs["doc_probe"] = {"word": word.lower(), "rc": rh["rc"], "want": f["doc"], "shown": f["doc"] in rh["out"]}
         obs["invocations"] = inv
         res.append(obs)
-    gl = golist(mage, mf, paths)
+    gl = golist(mage, mf, paths, None, (states[0].get("env") or {}).get("GOFLAGS"))
     for o in res:
         o["golist_mf"] = o["golist_start"] = gl
     return res
@@ -739,7 +800,7 @@ def run(ctx):
     combos = set()
     dist = {"specs": 0, "untagged": 0, "root": 0, "named": 0}
     by = {"placement": {}, "group_length": {}, "spelling": {}, "kind": {}, "position": {}, "layout": {}, "raw_path_literal": {}, "tagged_package_shape": {}, "environment_of_projects_with_platform_files": {},
-          "same_package_several_times": {}, "file_system_shape": {}, "size_extremes": {}, "size_local_targets": {}, "size_tagged_imports": {}, "size_targets_per_import": {}}
+          "go_environment": {}, "same_package_several_times": {}, "file_system_shape": {}, "size_extremes": {}, "size_local_targets": {}, "size_tagged_imports": {}, "size_targets_per_import": {}}
     nerr = 0
     for proj, obs, ast in zip(projects, observations, asts):
         by["layout"][proj["layout"]] = by["layout"].get(proj["layout"], 0) + 1
@@ -763,6 +824,10 @@ def run(ctx):
             by["size_tagged_imports"][str(len(sz["imports"]))] = by["size_tagged_imports"].get(str(len(sz["imports"])), 0) + 1
             for kd, nf in sz["imports"]:
                 by["size_targets_per_import"][str(nf)] = by["size_targets_per_import"].get(str(nf), 0) + 1
+        pe = proj.get("env") or {}
+        if "GOFLAGS" in pe or "HOME" in pe:
+            ek = ("GOFLAGS=" + pe["GOFLAGS"] if "GOFLAGS" in pe else "") + (" HOME unset" if "HOME" in pe else "")
+            by["go_environment"][ek.strip()] = by["go_environment"].get(ek.strip(), 0) + 1
         if any("+platform" in pk.get("shape", "") for pk in proj["packages"]):
             ek = ",".join("%s=%s" % kv for kv in sorted((proj.get("env") or {}).items())) or "plain"
             by["environment_of_projects_with_platform_files"][ek] = by["environment_of_projects_with_platform_files"].get(ek, 0) + 1
@@ -797,8 +862,8 @@ def run(ctx):
                 if dp and (dp["rc"] != 0 or not dp["shown"]):
                     bad.append(("help", "`mage -h %s`: rc %d, the description %r is not shown" % (dp["word"], dp["rc"], dp["want"])))
                 for clause, detail in bad:
-                    ctx.violation({"kind": "oracle", "clause": clause + "-in-history", "step": si, "mode": obs["mode"], "after_edit": obs["edit"], "detail": detail,
-                                   "history": [("%s; " % s["edit"] if s["edit"] else "") + "%s mode, first %s" % (s["mode"], s["first"]) for s in seq["history"]["steps"]]},
+                    ctx.violation({"kind": "oracle", "clause": clause + "-in-history", "step": si, "mode": obs["mode"], "after_edit": obs["edit"], "GOCACHE": obs.get("gocache"), "env": obs.get("env"), "detail": detail,
+                                   "history": [("%s; " % s["edit"] if s["edit"] else "") + "%s mode, first %s" % (s["mode"], s["first"]) + (", GOCACHE %s" % s["gocache"] if s.get("gocache") else "") for s in seq["history"]["steps"]]},
                                   case=seq, extra={"observed_at_step": {k: obs.get(k) for k in ("names", "calls", "error", "stderr", "invocations", "expected_state", "doc_probe")}})
                 items.append(coq_case(proj, obs, ast["files"]))
                 continue
@@ -831,6 +896,8 @@ def run(ctx):
     cov["command_line_histories_with_one_cache"] = {
         "histories": len(hs), "steps": sum(len(h["history"]["steps"]) for h in hs),
         "edits": sorted({(s["edit"] or "").split(":")[0] for h in hs for s in h["history"]["steps"] if s["edit"]}),
+        "GOCACHE": sorted({s.get("gocache") or "default" for h in hs for s in h["history"]["steps"]}),
+        "GOFLAGS": sorted({(h["history"]["states"][0].get("env") or {}).get("GOFLAGS", "-mod=mod") for h in hs}),
         "judged": "default-mode steps against the state on disk; hash-mode steps against the state of the last build (the magefiles did not change)"}
     cov["sequences_in_one_process"] = {"sequences": len(sequences) - len(hs), "steps": len(origin) - sum(len(h["history"]["steps"]) for h in hs),
                                        "shapes": "A,B (same module path and import paths, different packages) and A, A+file added to an imported package, B, A+file"}
